@@ -637,6 +637,11 @@ size_t rtosc_message_ring_length(ring_t *ring)
                 i |= (deref(pos++,ring) << 16);
                 i |= (deref(pos++,ring) << 8);
                 i |= (deref(pos++,ring));
+                //a blob cannot be longer than what is left of the buffer
+                //(pos is 32 bit: an unchecked length near 2^32 wraps it)
+                if(pos > ring[0].len+ring[1].len ||
+                        i > ring[0].len+ring[1].len-pos)
+                    return 0;
                 pos += i;
                 if((pos-aligned_pos)%4)
                     pos += 4-(pos-aligned_pos)%4;
